@@ -27,6 +27,7 @@
 #include <algorithm>
 #include <unistd.h>
 #include <signal.h>
+#include <sys/time.h>
 #include <fcntl.h>
 
 extern "C" void __sanitizer_set_death_callback(void (*)(void)) __attribute__((weak));
@@ -188,17 +189,21 @@ struct Current {
   char *text = nullptr;
   size_t len = 0, cap = 0;
   char sub[64];
+  int cpu_budget_s = 0;     // > 0: every case may use at most this much user CPU time (one-sided non-termination oracle, see cpu_guard)
+  bool replay_mode = false;
 };
 inline Current &cur() { static Current c; return c; }
 
+inline void cpu_guard_rearm();
 inline void set_current_case(const char *sub, const std::string &text) {
   Current &c = cur();
+  cpu_guard_rearm();
   if (text.size() + 1 > c.cap) { c.cap = text.size() * 2 + 64; c.text = (char *)realloc(c.text, c.cap); }
   memcpy(c.text, text.data(), text.size());
   c.len = text.size();
   strncpy(c.sub, sub, sizeof c.sub - 1);
 }
-inline void crash_dump(const char *why) {
+inline void crash_dump(const char *why, const char *klass = "crash", const char *prefix = "process died: ") {
   static volatile int done = 0;
   if (done) return;
   done = 1;
@@ -208,7 +213,7 @@ inline void crash_dump(const char *why) {
     int fd = open(c.path, O_WRONLY | O_CREAT | O_TRUNC, 0644);
     if (fd >= 0) { ssize_t r = write(fd, c.text, c.len); (void)r; close(fd); }
     Failure f;
-    f.sub = c.sub; f.verdict = std::string("process died: ") + why; f.klass = "crash"; f.replay = c.path;
+    f.sub = c.sub; f.verdict = std::string(prefix) + why; f.klass = klass; f.replay = c.path;
     stats().failures.push_back(f);
   }
   stats().flush();
@@ -221,6 +226,25 @@ inline void sig_cb(int sig) {
   signal(sig, SIG_DFL);
   raise(sig);
 }
+// Non-termination oracle for the single-threaded, CPU-bound harnesses (tree, hash table/list, INI, socket address): a case that
+// normally takes milliseconds and has consumed cpu_budget_s seconds of *user CPU time of this process* (ITIMER_VIRTUAL - machine
+// load and waiting do not count) is reported as a failure of class cpu-budget with the current case as replay.
+inline void cpu_cb(int) {
+  Current &c = cur();
+  char msg[256];
+  const char *prop = getenv("VERIF_PROP");
+  snprintf(msg, sizeof msg, "%s:cpu-budget: the case did not finish within %d s of CPU time (cases of this harness take milliseconds): non-termination or a blow-up of the work per operation", prop ? prop : "C??", c.cpu_budget_s);
+  if (c.replay_mode) { printf("REPLAY-FAIL %s\n", msg); fflush(stdout); _exit(1); }
+  crash_dump(msg, "cpu-budget", "");
+  _exit(86);
+}
+inline void cpu_guard_rearm() {
+  Current &c = cur();
+  if (c.cpu_budget_s <= 0) return;
+  struct itimerval it; memset(&it, 0, sizeof it); it.it_value.tv_sec = c.cpu_budget_s;
+  setitimer(ITIMER_VIRTUAL, &it, NULL);
+}
+inline void cpu_guard(int seconds) { const char *o = getenv("VERIF_CPU_BUDGET"); if (o && atoi(o) > 0) seconds = atoi(o); cur().cpu_budget_s = seconds; signal(SIGVTALRM, cpu_cb); cpu_guard_rearm(); }
 inline void install_crash_capture() {
   if (__sanitizer_set_death_callback) __sanitizer_set_death_callback(death_cb);
   signal(SIGABRT, sig_cb);
@@ -288,6 +312,7 @@ inline int harness_main(int argc, char **argv, std::function<int()> run_generate
   if (argc >= 3 && !strcmp(argv[1], "--replay")) {
     std::string raw = read_file(argv[2]), text;
     for (auto &l : split_lines(raw)) if (l.empty() || l[0] != '#') text += l + "\n";
+    cur().replay_mode = true;
     set_current_case("replay", text);
     std::string v = run_replay(text);
     if (v.empty()) { printf("REPLAY-OK\n"); return 0; }
